@@ -170,7 +170,7 @@ Proof.
     rewrite !app_length. cbn [length]. rewrite L1, L2, skipn_length. lia.
   - rewrite C. replace (Z.to_nat (num t - 1)) with (i + (n - 1 - i))%nat by lia.
     rewrite app_assoc. rewrite firstn_app. rewrite app_length, L1, L2.
-    replace (i + (n - 1 - i) - (i + (n - 1 - i)))%nat with 0%nat by lia. simpl. rewrite app_nil_r.
+    replace (i + (n - 1 - i) - (i + (n - 1 - i)))%nat with 0%nat by lia. rewrite firstn_O, app_nil_r.
     apply firstn_all2. rewrite app_length, L1, L2. lia.
 Qed.
 
@@ -179,12 +179,14 @@ Lemma rename_first_spec : forall n l old new i,
   rename_first (firstn n l) old new =
   firstn n (firstn i l ++ (pad32 new, snd (nth i l (unused_name, (0, 0)))) :: skipn (S i) l).
 Proof.
-  induction n; intros l old new i H; simpl in H; [destruct l; discriminate|].
-  destruct l as [|e r]; [discriminate|]. simpl.
+  induction n; intros l old new i H; [destruct l; discriminate|].
+  destruct l as [|e r]; [discriminate|]. cbn [find_name] in H. cbn [firstn rename_first].
   destruct (names_match (fst e) old) eqn:E.
-  - inversion H; subst i. simpl. rewrite E. reflexivity.
-  - destruct (find_name r n old) as [j|] eqn:Ej; [|discriminate]. inversion H; subst i. simpl. rewrite E.
-    f_equal. now apply IHn.
+  - injection H as <-. reflexivity.
+  - destruct (find_name r n old) as [j|] eqn:Ej; [|discriminate]. injection H as <-.
+    change (firstn (S j) (e :: r)) with (e :: firstn j r). change (skipn (S (S j)) (e :: r)) with (skipn (S j) r).
+    change (nth (S j) (e :: r) (unused_name, (0, 0))) with (nth j r (unused_name, (0, 0))).
+    cbn [app firstn]. f_equal. now apply IHn.
 Qed.
 
 Lemma rename_child_spec t old new : WFc t ->
@@ -210,6 +212,186 @@ Proof.
         -- unfold children. cbn [num ents]. rewrite (rename_first_spec _ _ _ _ _ Ei). rewrite Enth. reflexivity.
       * right. unfold children. clear -H.
         revert H. generalize (Z.to_nat (num t)) as n. generalize (ents t) as l.
-        intros l n. revert l. induction n; intros [|e r] H; simpl in *; auto.
-        destruct (names_match (fst e) old); [discriminate|]. simpl in H. f_equal. auto.
+        intros l n. revert l. induction n; intros [|e r] H; cbn [firstn rename_first] in *; auto.
+        unfold has_name in H. cbn [existsb] in H. apply orb_false_iff in H. destruct H as [H1 H2].
+        assert (E : names_match (fst e) old = false) by exact H1. rewrite E. f_equal. apply IHn. exact H2.
+Qed.
+
+(* ------------------------------------------------------------------ histories *)
+Definition names_ok (l : list centry) : Prop := Forall (fun e => length (fst e) = ADF_NAME_LENGTH) l.
+
+Lemma has_name_false_notin l nm : names_ok l -> has_name l nm = false -> ~ In (pad32 nm) (map fst l).
+Proof.
+  intros Hok Hn Hin. apply in_map_iff in Hin. destruct Hin as (e & He & Hin).
+  unfold has_name in Hn. assert (Ht : existsb (fun e => names_match (fst e) nm) l = true).
+  { apply existsb_exists. exists e. split; auto. apply names_match_pad32; auto.
+    unfold names_ok in Hok. rewrite Forall_forall in Hok. auto. }
+  congruence.
+Qed.
+
+Lemma remove_first_sub l c : forall e, In e (remove_first l c) -> In e l.
+Proof.
+  induction l as [|a r IH]; simpl; auto. intros e. destruct (ptr_eqb (snd a) c); simpl; auto.
+  intros [->|H]; auto.
+Qed.
+Lemma remove_first_nodup l c : NoDup (map fst l) -> NoDup (map fst (remove_first l c)).
+Proof.
+  induction l as [|a r IH]; simpl; auto. intros H. inversion H; subst.
+  destruct (ptr_eqb (snd a) c); auto. simpl. constructor; auto.
+  intros Hin. apply H2. apply in_map_iff in Hin. destruct Hin as (e & He & Hin). apply in_map_iff. exists e.
+  split; auto. eapply remove_first_sub; eauto.
+Qed.
+Lemma remove_first_names_ok l c : names_ok l -> names_ok (remove_first l c).
+Proof.
+  unfold names_ok. rewrite !Forall_forall. intros H e He. apply H. eapply remove_first_sub; eauto.
+Qed.
+
+Lemma rename_first_names l old new :
+  forall x, In x (map fst (rename_first l old new)) -> x = pad32 new \/ In x (map fst l).
+Proof.
+  induction l as [|a r IH]; simpl; auto. intros x. destruct (names_match (fst a) old); simpl.
+  - intros [<-|H]; auto.
+  - intros [<-|H]; auto. apply IH in H. tauto.
+Qed.
+Lemma rename_first_nodup l old new : NoDup (map fst l) -> ~ In (pad32 new) (map fst l) ->
+  NoDup (map fst (rename_first l old new)).
+Proof.
+  induction l as [|a r IH]; simpl; auto. intros H Hn. inversion H; subst.
+  destruct (names_match (fst a) old); simpl.
+  - constructor; auto.
+  - constructor; [|apply IH; auto]. intros Hin. apply rename_first_names in Hin. destruct Hin as [E|Hin]; auto.
+Qed.
+Lemma rename_first_names_ok l old new : (length new <= ADF_NAME_LENGTH)%nat -> names_ok l -> names_ok (rename_first l old new).
+Proof.
+  intros Hl. unfold names_ok. induction l as [|a r IH]; simpl; auto. intros H. inversion H; subst.
+  destruct (names_match (fst a) old); constructor; auto. simpl. now apply pad32_length.
+Qed.
+
+Lemma NoDup_snoc {A} (l : list A) a : NoDup l -> ~ In a l -> NoDup (l ++ [a]).
+Proof.
+  induction l as [|b l IH]; simpl; intros H Hn.
+  - constructor; auto; constructor.
+  - inversion H; subst. constructor.
+    + intro Hin. apply in_app_or in Hin. destruct Hin as [Hin|[<-|[]]]; auto.
+    + apply IH; auto.
+Qed.
+
+Record CInv (t : ctab) (K : Z) : Prop := mkCInv {
+  ci_wf : WFc t;
+  ci_names : names_ok (children t);
+  ci_nodup : NoDup (map fst (children t));
+  ci_num : num t <= K;
+  ci_cap : cap t <= LIST_CHUNK + 2 * K
+}.
+
+Lemma good_name_len nm : good_name nm = true -> (length nm <= ADF_NAME_LENGTH)%nat.
+Proof. unfold good_name. rewrite andb_true_iff. intros [_ H]. now apply Nat.leb_le in H. Qed.
+
+Lemma cstep_inv t K p : CInv t K -> 0 <= K < 8000000 -> good_op p = true ->
+  exists t', cstep t p = Some t' /\ CInv t' (K + 1) /\ children t' = ideal_cstep (children t) p.
+Proof.
+  intros [HW Hnm Hnd Hn Hc] HK Hg. pose proof (wfc_num _ HW) as Hnum. pose proof (eq_refl : LIST_CHUNK = 8) as HLC.
+  destruct p as [nm child|child|old new]; cbn [cstep ideal_cstep good_op] in *.
+  - (* add *)
+    destruct (check_child t nm) as [x|] eqn:Ech.
+    + assert (Hh : has_name (children t) nm = true).
+      { destruct (has_name (children t) nm) eqn:E; auto. apply check_child_none in E; [congruence|lia]. }
+      rewrite Hh. exists t. split; auto. split; auto. constructor; auto; lia.
+    + apply check_child_none in Ech; [|lia]. rewrite Ech.
+      destruct (add_child_spec t (pad32 nm) child HW ltac:(unfold FLOAT_EXACT; lia)) as (t' & Ea & HW' & Hch & C1 & C2 & C3).
+      rewrite Ea. exists t'. split; auto. split; auto.
+      pose proof (wfc_num _ HW') as Hnum'.
+      constructor; auto.
+      * rewrite Hch. unfold names_ok. apply Forall_app. split; auto. constructor; auto. simpl.
+        apply pad32_length. now apply good_name_len.
+      * rewrite Hch, map_app. simpl. apply NoDup_snoc; auto. now apply has_name_false_notin.
+      * (* num t' = num t + 1: from the children lists *)
+        assert (Hlen : length (children t') = S (length (children t))) by (rewrite Hch, app_length; simpl; lia).
+        unfold children in Hlen. rewrite !firstn_length in Hlen.
+        pose proof (wfc_len _ HW) as L. pose proof (wfc_len _ HW') as L'. lia.
+      * destruct C3 as [C3|C3]; lia.
+  - (* delete *)
+    pose proof (del_child_spec t child HW) as H. destruct (del_child t child) as [t'|e].
+    + destruct H as (HW' & Hch & Hcap). exists t'. split; auto. split; auto.
+      pose proof (wfc_num _ HW') as Hnum'.
+      constructor; auto.
+      * rewrite Hch. now apply remove_first_names_ok.
+      * rewrite Hch. now apply remove_first_nodup.
+      * assert (Hlen : (length (children t') <= length (children t))%nat).
+        { rewrite Hch. clear. induction (children t) as [|a r IH]; simpl; auto. destruct (ptr_eqb (snd a) child); simpl; lia. }
+        unfold children in Hlen. rewrite !firstn_length in Hlen.
+        pose proof (wfc_len _ HW) as L. pose proof (wfc_len _ HW') as L'. lia.
+      * lia.
+    + exists t. split; auto. split; auto. constructor; auto; lia.
+  - (* rename *)
+    apply andb_true_iff in Hg. destruct Hg as [Hg1 Hg2].
+    pose proof (rename_child_spec t old new HW) as H. destruct (rename_child t old new) as [t'|e].
+    + destruct H as (HW' & Hh & Hch & Hcap). rewrite Hh. exists t'. split; auto. split; auto.
+      pose proof (wfc_num _ HW') as Hnum'.
+      constructor; auto.
+      * rewrite Hch. apply rename_first_names_ok; auto. now apply good_name_len.
+      * rewrite Hch. apply rename_first_nodup; auto. now apply has_name_false_notin.
+      * assert (Hlen : length (children t') = length (children t)).
+        { rewrite Hch. clear. induction (children t) as [|a r IH]; simpl; auto. destruct (names_match (fst a) old); simpl; lia. }
+        unfold children in Hlen. rewrite !firstn_length in Hlen.
+        pose proof (wfc_len _ HW) as L. pose proof (wfc_len _ HW') as L'. lia.
+      * lia.
+    + exists t. split; auto. split; [constructor; auto; lia|].
+      destruct H as [H|H]; [now rewrite H|]. destruct (has_name (children t) new); auto.
+Qed.
+
+Lemma crun_inv : forall h t K, CInv t K -> 0 <= K -> K + Z.of_nat (length h) < 8000000 -> forallb good_op h = true ->
+  exists t', crun t h = Some t' /\ CInv t' (K + Z.of_nat (length h)) /\ children t' = ideal_crun (children t) h.
+Proof.
+  induction h as [|p r IH]; intros t K HI HK Hlen Hg.
+  - exists t. simpl. rewrite Z.add_0_r. auto.
+  - simpl in Hg. apply andb_true_iff in Hg. destruct Hg as [Hg1 Hg2].
+    simpl length in Hlen. destruct (cstep_inv t K p HI ltac:(lia) Hg1) as (t1 & E1 & HI1 & C1).
+    destruct (IH t1 (K + 1) HI1 ltac:(lia) ltac:(lia) Hg2) as (t' & E' & HI' & C').
+    exists t'. cbn [crun ideal_crun]. rewrite E1. split; auto. split.
+    + replace (K + Z.of_nat (length (p :: r))) with (K + 1 + Z.of_nat (length r)) by (simpl length; lia). auto.
+    + now rewrite <- C1.
+Qed.
+
+Lemma empty_CInv : CInv empty_tab 0.
+Proof.
+  constructor.
+  - apply empty_WFc.
+  - constructor.
+  - constructor.
+  - simpl. lia.
+  - unfold LIST_CHUNK. simpl. lia.
+Qed.
+
+(* for EVERY add / delete / rename history (below 8 million calls: the (float) growth arithmetic is exact there)
+   the table exists, its first num entries ARE the ideal ordered list -- append at the end, delete keeps the
+   order of the others, rename in place --, names are unique, count <= capacity *)
+Theorem children_refine_list : forall h,
+  forallb good_op h = true -> Z.of_nat (length h) < 8000000 ->
+  exists t, crun empty_tab h = Some t /\
+            children t = ideal_crun [] h /\
+            NoDup (map fst (children t)) /\
+            0 <= num t <= cap t /\ length (ents t) = Z.to_nat (cap t) /\
+            (cap t = 0 \/ LIST_CHUNK <= cap t).
+Proof.
+  intros h Hg Hl.
+  destruct (crun_inv h empty_tab 0 empty_CInv ltac:(lia) ltac:(lia) Hg) as (t & E & [HW Hn Hd _ _] & C).
+  exists t. split; auto. split; [exact C|]. split; auto. destruct HW; auto.
+Qed.
+
+(* the ideal list operations are what they should be *)
+Lemma ideal_add_appends l nm child : has_name l nm = false -> ideal_cstep l (CAdd nm child) = l ++ [(pad32 nm, child)].
+Proof. intros H. simpl. now rewrite H. Qed.
+Lemma ideal_del_keeps_order l child :
+  (has_ptr l child = false /\ ideal_cstep l (CDel child) = l) \/
+  (exists a e b, l = a ++ e :: b /\ ptr_eqb (snd e) child = true /\ has_ptr a child = false /\
+                 ideal_cstep l (CDel child) = a ++ b).
+Proof.
+  unfold has_ptr. cbn [ideal_cstep]. induction l as [|x r IH]; cbn [remove_first existsb].
+  - left. auto.
+  - destruct (ptr_eqb (snd x) child) eqn:E.
+    + right. exists [], x, r. auto.
+    + cbn [orb]. destruct IH as [[H1 H2]|(a & e & b & H1 & H2 & H3 & H4)].
+      * left. split; auto. now rewrite H2.
+      * right. exists (x :: a), e, b. subst r. cbn [existsb app]. rewrite E, H3, H4. auto.
 Qed.
